@@ -24,6 +24,9 @@ func cmdC12Corr(seed uint64, n int, dir string) {
 	for c := 0; c < n; c++ {
 		alloc := pick(r, []int{0, 0, 1, 4, 7, 8, 9, 20, 40})
 		m := g.VerifNewIntMap(alloc)
+		oracle := map[int]g.Value{} // the finite map the table must behave like
+		var trace []string
+		bad := ""
 		// key pool: several keys per home slot so that probe chains, swaps and wrap-around occur
 		var pool []int
 		stride := pick(r, []int{1, 16, 32, 64, 3, 17})
@@ -51,6 +54,8 @@ func cmdC12Corr(seed uint64, n int, dir string) {
 			switch {
 			case x < delPct:
 				m.Delete(k)
+				delete(oracle, k)
+				trace = append(trace, fmt.Sprintf("delete %d", k))
 				ops = append(ops, fmt.Sprintf("IDel %d", k))
 				shape["del"]++
 			case x < delPct+35:
@@ -59,21 +64,37 @@ func cmdC12Corr(seed uint64, n int, dir string) {
 					v = g.Float64(float64(r.intn(10)) + 0.5)
 				}
 				m.Set(k, v)
+				oracle[k] = v
+				trace = append(trace, fmt.Sprintf("set %d=%s", k, v.String()))
 				ops = append(ops, fmt.Sprintf("ISet %d %s", k, coqValue(v)))
 				shape["set"]++
 			case x < delPct+50:
 				v := g.VerifNewUntyped(r.intn(300))
 				m.Assign(k, v)
+				if old, ok := oracle[k]; ok {
+					oracle[k] = g.VerifAssign(v, g.VerifTag(old))
+				}
+				trace = append(trace, fmt.Sprintf("assign %d=%s", k, v.String()))
 				ops = append(ops, fmt.Sprintf("IAssign %d %s", k, coqValue(v)))
 				shape["assign"]++
 			case x < delPct+55:
 				ops = append(ops, fmt.Sprintf("ILen %d", m.Len()))
+				if m.Len() != len(oracle) && bad == "" {
+					bad = fmt.Sprintf("Len = %d after [%s], a map holds %d keys", m.Len(), strings.Join(trace, "; "), len(oracle))
+				}
 				shape["len"]++
 			default:
 				v, ok := m.Get(k)
 				ops = append(ops, fmt.Sprintf("IGet %d %s", k, optValCoq(v, ok)))
+				ev, eok := oracle[k]
+				if (ok != eok || (ok && (g.VerifTag(v) != g.VerifTag(ev) || v.String() != ev.String()))) && bad == "" {
+					bad = fmt.Sprintf("Get(%d) = (%s, %v) after [%s], a map gives (%s, %v)", k, v.String(), ok, strings.Join(trace, "; "), ev.String(), eok)
+				}
 				shape["get"]++
 			}
+		}
+		if bad != "" {
+			st.mismatchG("intmap-history", map[string]any{"kind": "field-table history (Set/Assign/Get/Delete/Len on the real intMap)", "what": bad, "alloc": alloc})
 		}
 		size, _, _, _, total := m.Params()
 		dist, keys, vals := m.Dump()
